@@ -216,6 +216,23 @@ CHECKS['C25'] = (
     'Natural runs of the C01 shapes plus hold/release/trigger commands, one reload and (thorough) graph-window resizes: after every Scheduler.update_data_structure each pooled proxy is compared with its data-store element; a client mirror initialised from the first published batch is fed every later batch through a protobuf round trip and data_store_mgr.apply_delta and must equal the scheduler store element-wise, with matching checksums.',
     A_NOTE + ' Restarts excluded; only the all topic is consumed; the client merge is a reconstruction of the UI server procedure around the real apply_delta.')
 
+CHECKS['C19'] = (
+    'schedmc', 'model_checking', A_TECH, '6/C19',
+    'A stop in each mode (clean, --now, --now --now) at every reachable main-loop boundary of 9 (12) small workflows (holds, hold point, broadcast, xtrigger, stop point, stop task, second flow), jobs stepping while the scheduler is down, 1-2 restarts, explored to all terminal states. In-memory pool at scheduler exit vs pool when the next Scheduler.start() returns: status (preparing -> waiting, same submit number reused), flows, held, submit number, completed outputs, prerequisite atoms, xtriggers, hold/stop point, stop task, broadcasts, flow counter; terminal: reference closure over realised outcomes + submit-once.',
+    A_NOTE + ' All-success jobs; runahead/queued flags and timers not compared.')
+CHECKS['C43'] = (
+    'schedmc', 'model_checking', A_TECH, '6/C43',
+    'stop <point> / stop <task> and stop / stop --now (--now --now) at every boundary of 7 (10) small workflows, then restart, to all terminal states. Reference stop point / stop task from the command log and the reference closure over environment truth: no submission beyond the stop point, automatic shutdown iff nothing <= stop point is left or the stop task succeeded, stopcp row NULL once reached else persisted and restored, clean stop only with no active job, --now goes down at once and job states are recovered after restart.',
+    A_NOTE + ' One recorded finding (stall on an incomplete task beyond the stop point).')
+CHECKS['C28'] = (
+    'schedmc', 'model_checking', A_TECH, '6/C28',
+    'cylc trigger on every subset (<=2 quick, <=3 thorough) of instances at every reachable boundary, flows all/new/none/N, with hold, pause, queue-limit and repeated-trigger entries. A per-trigger ledger checks immediate start of group-start members, in-group order against outputs really produced by jobs, live jobs left alone, at most one run per member in the trigger flows, and every member run at termination.',
+    A_NOTE + ' One recorded finding (a member removed while preparing still gets its queued job submission).')
+CHECKS['C29'] = (
+    'schedmc', 'model_checking', A_TECH, '6/C29',
+    'cylc set on every instance (active, finished, unspawned) with every output and prerequisite selection at every reachable boundary of <=3-task graphs. Children, satisfied atoms, implied outputs and the default selection are compared with a graph-term reference that also judges every natural output completion (one reference for forced and natural completion); frame check; a task whose prerequisites were all set must run.',
+    A_NOTE + ' --out=skip, --flow=new/none, --wait, family/glob targets out of scope.')
+
 NOT_BUILT_REASON = (
     'check not built yet in this session (designed in DESIGN.md section 6); '
     'no verdict is claimed')
